@@ -311,7 +311,7 @@ func cmdCheck(repo, verif, prop, tier string, timeoutMs int, verbose bool) int {
 	seen := map[string]bool{}
 	replays := map[string]int{}
 	var knownHit []string
-	nObl, nDis := 0, 0
+	nObl, nDis, nAssumed := 0, 0, 0
 	for _, fr := range cr.results {
 		if fr.Err != "" {
 			emitViolation(fr.Fn+"/engine", fmt.Sprintf("function %s could not be brought under the verifier:\n%s\nEvery obligation of this function is undecided (contract stale or construct outside the supported subset).\n", fr.Fn, fr.Err), true)
@@ -331,6 +331,10 @@ func cmdCheck(repo, verif, prop, tier string, timeoutMs int, verbose bool) int {
 			}
 			seen[o.Name] = true
 			nObl++
+			if o.Assumed {
+				nAssumed++ // named by an 'undecided' clause: counted, not discharged
+				continue
+			}
 			if o.ok() {
 				nDis++
 				continue
@@ -399,13 +403,17 @@ func cmdCheck(repo, verif, prop, tier string, timeoutMs int, verbose bool) int {
 			emitViolation("engine/stale:"+s, "contract refers to a function that no longer exists: "+s+"\n", true)
 		}
 	}
-	writeEvidence(verif, prop, tier, seed, cr, knownHit, violations, map[string]int{"obligations": nObl, "discharged": nDis})
+	writeEvidence(verif, prop, tier, seed, cr, knownHit, violations, map[string]int{"obligations": nObl, "discharged": nDis, "assumed": nAssumed})
 	if verbose {
 		for _, fr := range cr.results {
 			fmt.Printf("  %-50s gen %.2fs solve %.2fs err=%s\n", fr.Fn, fr.GenTime, fr.SolveTime, fr.Err)
 		}
 	}
-	fmt.Printf("property %s: %d obligations, %d discharged, %d violations, %.1fs\n", prop, nObl, nDis, violations, cr.wall)
+	assumedTxt := ""
+	if nAssumed > 0 {
+		assumedTxt = fmt.Sprintf(" %d assumed (undecided clauses),", nAssumed)
+	}
+	fmt.Printf("property %s: %d obligations, %d discharged,%s %d violations, %.1fs\n", prop, nObl, nDis, assumedTxt, violations, cr.wall)
 	if violations > 0 {
 		return 1
 	}
@@ -520,6 +528,7 @@ func writeEvidence(verif, prop, tier string, seed int, cr *checkRun, knownHit []
 		"coverage": map[string]interface{}{
 			"obligations":              counts["obligations"],
 			"discharged":               counts["discharged"],
+			"assumed_not_discharged":   counts["assumed"],
 			"checker_cmd":              fmt.Sprintf("/verif/bin/gvc check --property %s --tier %s", prop, tier),
 			"trusted_base":             trusted,
 			"functions_under_contract": fns,
